@@ -700,7 +700,8 @@ fn c19(p: &Prog, rec: &mut Rec, tier: u8) {
         }
     }
     // --- both limits set: each is honoured on its own terms, the run ends at the first boundary at which either is reached
-    for (m, ms, c) in [(1_000_000usize, 0u64, 1usize), (1_000_000, 0, 2), (1_000_000, 0, 3), (1_000_000, 0, 5), (n + 7, 0, 4), (3, 3_600_000, 2), (n / 2 + 1, 3_600_000, 1), (2, 0, 3)] {
+    let both: Vec<(usize, u64, usize)> = if tier == 0 { vec![(1_000_000, 0, 1), (1_000_000, 0, 3), (3, 3_600_000, 2), (2, 0, 3)] } else { vec![(1_000_000, 0, 1), (1_000_000, 0, 2), (1_000_000, 0, 3), (1_000_000, 0, 5), (n + 7, 0, 4), (3, 3_600_000, 2), (n / 2 + 1, 3_600_000, 1), (2, 0, 3)] };
+    for (m, ms, c) in both {
         let mut cfg = base_cfg(tier);
         cfg.max_permutations = Some(m);
         cfg.max_duration_ms = Some(ms);
